@@ -1,6 +1,7 @@
 package qcheck
 
 import (
+	"github.com/nuetzliches/hookaido/internal/queue"
 	"bytes"
 	"fmt"
 	"path/filepath"
@@ -26,6 +27,8 @@ type LockSpec struct {
 	Workers  int
 	// RootShard/RootShards split the search below the initial state over processes (see bfs.Engine).
 	RootShard, RootShards int
+	// ScaleCompaction: see Spec.ScaleCompaction (memory side).
+	ScaleCompaction bool
 }
 
 type LockResult struct {
@@ -290,6 +293,10 @@ func RunLockstep(spec LockSpec) *LockResult {
 	cfg := spec.Cfg
 	cfg.SweepGranularity = 10 * time.Millisecond
 	cfg.DeliveredCountsAgainstDepth = true
+	if spec.ScaleCompaction {
+		ScaleApplied = queue.VerifSetCompaction(2, 1)
+		defer queue.VerifSetCompaction(1024, 4)
+	}
 	scratch := runner.Scratch()
 	pairs := make([]*pair, spec.Workers)
 	var initMu sync.Mutex
@@ -438,6 +445,13 @@ func ReportLockstep(r *runner.Run, spec LockSpec, res *LockResult) {
 	r.Add("transitions", res.Transitions)
 	r.Add("traces_validated_against_impl", res.Transitions)
 	label := fmt.Sprintf("%s/%s", spec.Name, res.ConfigLabel)
+	if spec.ScaleCompaction {
+		if ScaleApplied {
+			label += "/compaction-scaled"
+		} else {
+			label += "/compaction-scale-not-applicable"
+		}
+	}
 	if spec.RootShards > 1 {
 		label += fmt.Sprintf("/shard%d-of-%d", spec.RootShard, spec.RootShards)
 	}
